@@ -1,7 +1,11 @@
 """C23 - string and number filters against executable contracts written from
 their docstrings; every case is driven through Environment.call_filter and
 through a rendered template (object-recording and plain-text forms, arguments
-as variables or inline literals) in a sync and in an async environment."""
+as variables or inline literals) in a sync and in an async environment.  The
+text subjects are also handed over as other types - a str subclass, Markup, an
+object with only __str__, a lazy-string proxy, objects implementing __html__
+(with an unrelated or no __str__) - and held to the contract wherever the
+documentation says which text form the filter works on."""
 from __future__ import annotations
 
 import math
@@ -12,7 +16,8 @@ from vt.model import c23_spec as SP
 PID = "C23"
 LEVEL = "exploration"
 TECHNIQUE = ("contract monitor over the results of the real filters: per-filter executable "
-             "specification + sync/async/template agreement")
+             "specification + sync/async/template agreement; subject-type dimension (str "
+             "subclass, Markup, __str__-only, lazy string, __html__ objects) over the same contracts")
 RULE = ("cases = (filter, subject value, positional/keyword arguments, environment policy); an "
         "enumerated grid (int/float: every value of a pool of ~110 numbers, numeric-string "
         "spellings, None, booleans and containers x default x base; truncate: every length 3-18 "
@@ -25,12 +30,32 @@ RULE = ("cases = (filter, subject value, positional/keyword arguments, environme
         "(runs of spaces, tabs, every str.splitlines() line-break form, no-break spaces, "
         "punctuation, markup), whitespace-only and empty texts, lengths chosen around the "
         "truncate/center/wordwrap boundaries; each case runs through call_filter and a template "
-        "in a sync and an async environment. distinct = distinct (filter, value, args, kwargs) "
-        "tuples with a non-empty subject")
+        "in a sync and an async environment. SUBJECT TYPES: an enumerated grid (every filter x "
+        "subject kind, twice, from fixed seeds) and one random case per two cases of the main "
+        "workload take a generated case with a text subject and pass the text as a str subclass, "
+        "as markupsafe.Markup, as an object with only __str__, as a lazy-string proxy (not a str; "
+        "forwards every str operation), as an object with __html__() = the text and an unrelated "
+        "__str__, or as an object with only __html__; always as a template variable, never as a "
+        "literal. The contract on the text applies for a str subclass (all filters), Markup (all "
+        "but format, when no string argument contains & < > ' \" - escaping of operands is C24), "
+        "__str__-only and lazy subjects (the filters documented on 'a value': upper, lower, "
+        "capitalize, title, center, replace - its text is str(value)), and for striptags on "
+        "__html__ objects, whose markup form value.__html__() is "
+        "what gets stripped; int/float must return an int/float or the default for any such "
+        "object; every other combination is only checked for agreement of the four drives. "
+        "distinct = distinct (filter, subject kind, value, args, kwargs) tuples with a non-empty "
+        "subject")
 LEVEL_TEXT = ("held on K generated executions of the real filters covering the enumerated "
               "number/length grids completely and a seeded random sample of texts and arguments")
 ASSUMPTIONS = [
-    "autoescape is off; Markup subjects belong to C24",
+    "autoescape is off; what Markup subjects do to plain-string ARGUMENTS belongs to C24 (a Markup "
+    "subject with arguments free of HTML metacharacters must give the same text as the str)",
+    "striptags is defined on markup: for a value that implements the __html__ protocol "
+    "(documented signature str | HasHTML) the tags are stripped from value.__html__(), not from "
+    "str(value); for the other filters of this property the documentation does not say which "
+    "form of such a value is used when autoescape is off, so only agreement is checked there",
+    "a lazy string may be handed back unchanged by a filter that returns its input; the text of "
+    "the result is what is compared",
     "title/capitalize: what a word is beyond whitespace separation is not documented, so a cased "
     "character that follows neither whitespace nor a letter may come out in either case; where "
     "a case mapping is not one-to-one (sharp s, ligatures, final sigma) every reading of "
@@ -55,7 +80,15 @@ FLOORS = {
                            "string_filter_changed_text": 500,
                            "case_filter_on_special_case_mappings": 400,
                            "case_word_start_titlecase_differs_from_uppercase": 100,
-                           "filters_exercised_min_cases": 150}},
+                           "filters_exercised_min_cases": 150,
+                           # subject types: 200 grid cases + >= 150 random ones per shard
+                           "typed_cases": 1800, "typed_grid_cases": 180,
+                           "typed_contract_evaluations": 1100,
+                           "typed_agreement_only_cases": 500,
+                           "typed_html_protocol_contract_cases": 60,
+                           "typed_striptags_of_html_object_with_tags": 20,
+                           **{"typed_kind:" + k: 200 for k in SP.SUBJECT_KINDS},
+                           **{"typed:" + f: 40 for f in SP.TYPED_ROTATION}}},
     "thorough": {"evaluations": 600000, "distinct": 120000,
                  "counters": {"calls:call": 150000, "calls:tmpl": 150000, "calls:acall": 150000,
                               "calls:atmpl": 150000, "oracle_evaluations": 150000,
@@ -66,7 +99,14 @@ FLOORS = {
                               "indent:multi_line": 6000, "string_filter_changed_text": 50000,
                               "case_filter_on_special_case_mappings": 15000,
                               "case_word_start_titlecase_differs_from_uppercase": 4000,
-                              "filters_exercised_min_cases": 8000}},
+                              "filters_exercised_min_cases": 8000,
+                              "typed_cases": 50000, "typed_grid_cases": 180,
+                              "typed_contract_evaluations": 30000,
+                              "typed_agreement_only_cases": 12000,
+                              "typed_html_protocol_contract_cases": 1500,
+                              "typed_striptags_of_html_object_with_tags": 500,
+                              **{"typed_kind:" + k: 5000 for k in SP.SUBJECT_KINDS},
+                              **{"typed:" + f: 1000 for f in SP.TYPED_ROTATION}}},
 }
 N_RANDOM = {"quick": 2500, "thorough": 80000}
 FILTERS = SP.ALL_FILTERS
@@ -357,6 +397,64 @@ def gen_case(rng, name):
               via_render=rng.random() < 0.03)
 
 
+# --------------------------------------------------------------- subject types
+def wrap(kind, text, alt=None):
+    """The generated text held in another kind of subject (c23_spec.SUBJECT_KINDS)."""
+    if kind == "strsub":
+        return F.StrSub(text)
+    if kind == "markup":
+        from markupsafe import Markup
+
+        return Markup(text)
+    if kind == "stronly":
+        return F.StrOnly(text)
+    if kind == "lazy":
+        return F.LazyStr(text)
+    if kind == "html":
+        return F.HasHtml(text, alt)
+    if kind == "htmlonly":
+        return F.HtmlOnly(text)
+    raise AssertionError(kind)
+
+
+def gen_typed_case(rng, name, kind=None, min_len=0):
+    """A generated case of ``name`` with a str subject, the subject wrapped
+    into another type; None if the generator gave no (long enough) str subject."""
+    for _ in range(8):
+        case = gen_case(rng, name)
+        v = case["value"]
+        if not isinstance(v, str) or len(v) < min_len:
+            continue
+        k = kind or rng.choice(SP.SUBJECT_KINDS + (["html", "htmlonly"] if name == "striptags"
+                                                   else []))
+        case["subject"] = k
+        if k == "html":
+            # str() of the object: a plain text that is not its markup
+            alt = rng.choice(["", "Widget ", "<Field 1> ", "repr of "]) + \
+                text(rng, words=WORDS[:12] + ["<x>", "<1>"], seps=PLAIN_SEPS, nmax=3)
+            case["alt"] = alt if alt != v else alt + " (str)"
+        case["form"] = rng.choice(["rec", "rec", "text"])
+        return case
+    return None
+
+
+def typed_grid_cases():
+    """Every (filter, subject kind) twice, from fixed seeds (the same list in
+    every shard and for every VERIF_SEED)."""
+    import random
+
+    out = []
+    for name in FILTERS:
+        for kind in SP.SUBJECT_KINDS:
+            rng = random.Random(f"c23-typed-grid:{name}:{kind}")
+            for rep in range(2):
+                case = gen_typed_case(rng, name, kind, min_len=1 + 4 * rep)
+                if case is not None:
+                    case["via_render"] = False
+                    out.append(case)
+    return out
+
+
 def mk(name, value, args, kwargs, form="rec", inline=False, leeway=5, newline="\n",
        via_render=False):
     return {"filter": name, "value": F.enc(value), "args": F.enc(list(args)),
@@ -454,6 +552,10 @@ def drive(rig, case, path, inline_subject=True):
     args = F.dec(case["args"])
     kwargs = F.dec(case["kwargs"])
     name = case["filter"]
+    if case.get("subject"):
+        # never written as a literal: the template gets the object as a variable
+        value = wrap(case["subject"], value, case.get("alt"))
+        inline_subject = False
     if path.endswith("call"):
         out = (rig.acall if is_async else rig.call)(name, value, args, kwargs)
     else:
@@ -519,7 +621,46 @@ def printable_constant(v):
     return True
 
 
+class _Collector:
+    """Stands in for the harness context while a typed case runs: counters
+    pass through, violations are held back until their key is settled."""
+
+    def __init__(self, ctx):
+        self.ctx = ctx
+        self.viol = []
+
+    def ev(self, n=1):
+        if self.ctx is not None:
+            self.ctx.ev(n)
+
+    def count(self, name, n=1):
+        if self.ctx is not None:
+            self.ctx.count(name, n)
+
+    def violation(self, key, what, case):
+        self.viol.append((key, what, case))
+
+
 def run_case(ctx, rigs, case, count=True):
+    """Typed cases: a violation that the same text as a plain str shows as well
+    is reported under the key without the subject kind (the mechanism does not
+    depend on the type of the subject)."""
+    if not case.get("subject"):
+        return _run_case(ctx, rigs, case, count)
+    col = _Collector(ctx)
+    _run_case(col, rigs, case, count)
+    if col.viol:
+        twin = {k: v for k, v in case.items() if k not in ("subject", "alt")}
+        tcol = _Collector(None)
+        _run_case(tcol, rigs, twin, count=False)
+        tkeys = {k for k, _, _ in tcol.viol}
+        tag = "/subject:" + case["subject"]
+        for key, what, c in col.viol:
+            base = key.replace(tag, "")
+            ctx.violation(base if base in tkeys else key, what, c)
+
+
+def _run_case(ctx, rigs, case, count=True):
     name = case["filter"]
     rig = rigs.get(case.get("leeway", 5), case.get("newline", "\n"))
     info = {"leeway": case.get("leeway", 5), "newline": case.get("newline", "\n")}
@@ -527,6 +668,9 @@ def run_case(ctx, rigs, case, count=True):
     S = F.Sameness(())
     sync = None
     desc = None
+    kind = case.get("subject")
+    fkey = f"{name}/subject:{kind}" if kind else name
+    ref = ref + (repr(wrap(kind, F.dec(case["value"]), case.get("alt"))),) if kind else ref
     for path in PATHS:
         # A literal subject is folded at compile time; a folded non-finite float
         # is written into the generated code as the bare name ``inf``/``nan``.
@@ -543,7 +687,26 @@ def run_case(ctx, rigs, case, count=True):
             if info["leeway"] != 5 or info["newline"] != "\n":
                 desc += f" env={info}"
         is_async = path[0] == "a"
-        if path == "call":
+        if path == "call" and kind:
+            sync = out
+            mode = SP.typed_mode(name, kind, args, kwargs)
+            if mode is None:
+                verdict = None
+            else:
+                got = out
+                if out.ok and isinstance(out.value, F.LazyStr):
+                    # a filter may hand a lazy string back unchanged; its text counts
+                    got = F.Outcome(True, str(out.value))
+                verdict = SP.check(name, value if mode == "object" else F.dec(case["value"]),
+                                   args, kwargs, got, info)
+            if count:
+                ctx.count("typed_contract_evaluations" if mode else "typed_agreement_only_cases")
+                if mode and kind in ("html", "htmlonly"):
+                    ctx.count("typed_html_protocol_contract_cases")
+            if verdict:
+                ctx.violation(f"filter:{fkey}/{verdict[0]}", f"[{path}] {desc}: {verdict[1]}",
+                              case)
+        elif path == "call":
             sync = out
             verdict = SP.check(name, value, args, kwargs, out, info)
             if count:
@@ -579,10 +742,13 @@ def run_case(ctx, rigs, case, count=True):
                 ctx.count("text_form_checks")
             if not agree:
                 where = "async" if is_async else "template"
-                ctx.violation(f"{where}:{name}/differs-from-sync-call_filter",
+                ctx.violation(f"{where}:{fkey}/differs-from-sync-call_filter",
                               f"[{path}] {desc}: {out.describe()} but sync call_filter: "
                               f"{sync.describe()}", case)
-        if (F.fp(value), F.fp(args), F.fp(kwargs)) != ref:
+        now = (F.fp(F.dec(case["value"]) if kind else value), F.fp(args), F.fp(kwargs))
+        if kind:
+            now = now + (repr(value),)
+        if now != ref:
             ctx.violation(f"mutates:{name}/arguments",
                           f"[{path}] {desc}: arguments changed to {value!r:.100} {args!r:.100} "
                           f"{kwargs!r:.100}", case)
@@ -592,10 +758,30 @@ def nontrivial(case):
     return case["value"] not in ("", None)
 
 
+def run_typed(ctx, rigs, case, tally):
+    run_case(ctx, rigs, case)
+    ctx.count("typed_cases")
+    tally["filter"][case["filter"]] += 1
+    tally["kind"][case["subject"]] += 1
+    if case["subject"] in ("html", "htmlonly") and case["filter"] == "striptags" \
+            and "<" in case["value"]:
+        ctx.count("typed_striptags_of_html_object_with_tags")
+    if nontrivial(case):
+        ctx.dist([case["filter"], case["subject"], case["value"], case["args"], case["kwargs"]])
+
+
 def run(ctx):
     rigs = Rigs()
     per_filter = {f: 0 for f in FILTERS}
+    tally = {"filter": {f: 0 for f in FILTERS}, "kind": {k: 0 for k in SP.SUBJECT_KINDS}}
     try:
+        tgrid = typed_grid_cases()
+        for i, case in enumerate(tgrid):
+            if ctx.mine(i):
+                run_typed(ctx, rigs, case, tally)
+                ctx.count("typed_grid_cases")
+        ctx.extra["typed_grid_size"] = len(tgrid) if ctx.shard == 0 else 0
+        trng = ctx.rng("typed")
         grid = grid_cases()
         for i, case in enumerate(grid):
             if not ctx.mine(i):
@@ -619,7 +805,19 @@ def run(ctx):
                 ctx.dist([name, case["value"], case["args"], case["kwargs"], case["leeway"]])
             if i < 3 and ctx.shard in (0, 7):
                 ctx.sample(case)
+            # ---- the same generators with the subject held in another type
+            if i % 2 == 1:
+                tname = SP.TYPED_ROTATION[(i // 2 + ctx.shard) % len(SP.TYPED_ROTATION)]
+                tcase = gen_typed_case(trng, tname)
+                if tcase is not None:
+                    run_typed(ctx, rigs, tcase, tally)
+                    if i < 8 and ctx.shard == 3:
+                        ctx.sample(tcase)
             i += 1
+        for f, c in tally["filter"].items():
+            ctx.count("typed:" + f, c)
+        for k, c in tally["kind"].items():
+            ctx.count("typed_kind:" + k, c)
         for f, c in per_filter.items():
             ctx.count("cases:" + f, c)
         ctx.count("filters_exercised_min_cases", min(per_filter.values()))
